@@ -177,15 +177,22 @@ def encode(tx):
 
 
 def decode(data, pos=0):
-    """Returns (tx, end position).  BIP144: marker 00 flag 01 after the version means segwit."""
+    """Returns (tx, end position).  BIP144: marker 00 flag 01 after the version means segwit.  A legacy transaction
+    WITHOUT inputs also has 00 at that place (its input count): like Bitcoin Core's DecodeHexTx the extended reading
+    is tried first for 00 01 and the legacy reading is the fallback; 00 followed by anything else is legacy."""
+    if data[pos + 4 : pos + 6] == b"\x00\x01":
+        try:
+            return _decode(data, pos, True)
+        except (ValueError, IndexError, KeyError):
+            pass
+    return _decode(data, pos, False)
+
+
+def _decode(data, pos, segwit):
     r = Reader(data, pos)
     version = r.u(4)
-    segwit = False
-    if data[r.p : r.p + 1] == b"\x00":
-        if data[r.p + 1 : r.p + 2] != b"\x01":
-            raise ValueError("bad segwit flag")
+    if segwit:
         r.take(2)
-        segwit = True
     ins = []
     for _ in range(r.compact()):
         txid = r.take(32)[::-1]
